@@ -41,6 +41,7 @@ PROPS = {
     "C10": {
         "level": "proof",
         "units": ["cproof", "sproof", "range", "transcripts", "cor_cproof", "cor_sproof", "lemmas_schnorr", "lemmas_range_ledger", "lemmas_pedersen", "lemmas_ps"],
+        "kani": ["commit_scalars_respected_n1", "commit_scalars_respected_n2", "commit_scalars_respected_n3", "range_digits_exact"],
         "assumptions": [
             PER_INST,
             "CommitmentProofBuilder::generate_proof_commitments, RangeConstraintBuilder::generate_constraint_commitments/_response are contract-only in Verus (closures capture &mut rng / ArrayVec::into_iter); their contracts are assumptions of the completeness lemmas and are checked by Kani in bounded form",
@@ -66,6 +67,7 @@ PROPS = {
     "C13": {
         "level": "proof",
         "units": ["range", "sproof", "lemmas_range_ledger"],
+        "kani": ["range_digits_exact"],
         "assumptions": [
             PER_INST,
             "PS unforgeability for digits outside 0..127 (the signing key of the digit signatures is discarded)",
@@ -196,4 +198,9 @@ PROPS = {
         "assumptions": ["serde-derive/bincode round trip on mirrored shapes; codec pair to_compressed/from_compressed inverse"],
         "trusted_base": CRYPTO_AXIOMS,
     },
+}
+
+# Verus item -> complete Kani harness that decides the same obligation bit-precisely (see bin/check)
+SHADOWS = {
+    "range.RangeConstraintBuilder::generate_constraint_commitments.slice_digits": "range_digits_exact",
 }
